@@ -9,7 +9,7 @@ from pulser.pulse import Pulse
 from pulser.channels.dmm import DMM
 
 VERIF = os.path.dirname(os.path.dirname(os.path.abspath(__file__)))
-PROP_GROUP = {"C12": ["C12"], "C18": ["C18"], "C16": ["C16"], "C03": ["C03"], "C10": ["C10"], "C02": ["C02"], "C01": ["C01"], "C09": ["C09"], "C07": ["C07"], "C13": ["C13"], "C15": ["C15"]}
+PROP_GROUP = {"C06": ["C06"], "C12": ["C12"], "C18": ["C18"], "C16": ["C16"], "C03": ["C03"], "C10": ["C10"], "C02": ["C02"], "C01": ["C01"], "C09": ["C09"], "C07": ["C07"], "C13": ["C13"], "C15": ["C15"]}
 
 
 def load_known(prop):
@@ -604,4 +604,90 @@ def final_C18(seq, cfg, ctx, build_device, rng):
             out.append(("switch_register to a register with the same ids changed the timeline", dict(changed=["register"], channel=None)))
     except Exception:
         pass
+    return out
+
+
+# --------------------------------------------------------------------------
+def final_C06(seq, cfg, ctx, build_device, rng):
+    """sampling renders the schedule exactly (independent re-rendering from the slots)"""
+    from pulser.sampler import sample
+    out = []
+    if seq.is_parametrized() or not seq._schedule or seq.get_duration() == 0:
+        return out
+    try:
+        ss = sample(seq)
+    except Exception as ex:
+        return [(f"sampling raised {ex!r}", {})]
+    total = seq.get_duration()
+    for name, cs in seq._schedule.items():
+        chs = ss.channel_samples[name]
+        dur = cs.get_duration()
+        amp = np.asarray(chs.amp.as_array(detach=True), dtype=float)
+        det = np.asarray(chs.det.as_array(detach=True), dtype=float)
+        ph = np.asarray(chs.phase.as_array(detach=True), dtype=float)
+        if not (len(amp) == len(det) == len(ph) == dur):
+            out.append((f"{name}: sample arrays have lengths {len(amp)},{len(det)},{len(ph)} for channel duration {dur}", {}))
+            continue
+        e_amp, e_det = np.zeros(dur), np.zeros(dur)
+        for s in cs.slots:
+            if isinstance(s.type, Pulse):
+                e_amp[s.ti:s.tf] += np.asarray(s.type.amplitude.samples.as_array(detach=True), dtype=float)
+                e_det[s.ti:s.tf] += np.asarray(s.type.detuning.samples.as_array(detach=True), dtype=float)
+        if not np.allclose(amp, e_amp, atol=1e-9):
+            out.append((f"{name}: amplitude samples differ from the scheduled pulses at t={int(np.argmax(np.abs(amp - e_amp)))}", {}))
+        if not np.allclose(det, e_det, atol=1e-9):
+            out.append((f"{name}: detuning samples differ from the scheduled pulses at t={int(np.argmax(np.abs(det - e_det)))}", {}))
+        for s in cs.slots:
+            if isinstance(s.type, Pulse) and not cs.is_detuned_delay(s.type) and s.tf > s.ti:
+                if not np.allclose(ph[s.ti:s.tf], float(s.type.phase), atol=1e-9):
+                    out.append((f"{name}: phase over the pulse at [{s.ti},{s.tf}) is not the pulse's phase", {}))
+        # extension only pads
+        ext = chs.extend_duration(dur + 37)
+        a2 = np.asarray(ext.amp.as_array(detach=True), dtype=float)
+        d2 = np.asarray(ext.det.as_array(detach=True), dtype=float)
+        p2 = np.asarray(ext.phase.as_array(detach=True), dtype=float)
+        off = float(cs.eom_blocks[-1].detuning_off) if (cs.eom_blocks and cs.eom_blocks[-1].tf is None) else 0.0
+        if not (np.array_equal(a2[:dur], amp) and np.all(a2[dur:] == 0) and np.array_equal(d2[:dur], det) and np.allclose(d2[dur:], off)
+                and np.array_equal(p2[:dur], ph) and np.allclose(p2[dur:], ph[-1] if dur else 0.0)):
+            out.append((f"{name}: extend_duration does not only pad (zeros, off-detuning {off}, last phase)", {}))
+    # per-atom view
+    try:
+        nd = ss.to_nested_dict(all_local=True)
+    except Exception as ex:
+        return out + [(f"to_nested_dict raised {ex!r}", {})]
+    for basis, per_q in nd["Local"].items():
+        for q, arrs in per_q.items():
+            e_amp, e_det = np.zeros(total), np.zeros(total)
+            for name, cs in seq._schedule.items():
+                if cs.channel_obj.basis != basis:
+                    continue
+                w = 1.0
+                if isinstance(cs.channel_obj, DMM):
+                    w = cs.detuning_map.get_qubit_weight_map(seq.register.qubits).get(q, 0.0)
+                for s in cs.slots:
+                    if isinstance(s.type, Pulse) and q in s.targets:
+                        e_amp[s.ti:s.tf] += np.asarray(s.type.amplitude.samples.as_array(detach=True), dtype=float)
+                        e_det[s.ti:s.tf] += w * np.asarray(s.type.detuning.samples.as_array(detach=True), dtype=float)
+                # a channel that ends before the sequence while still in EOM mode idles at the off-detuning (padding rule);
+                # the padded stretch belongs to no slot, so it is not attributed to any atom
+
+            # idle EOM detuning between pulses is scheduled as detuned-delay pulses, already included above
+            covered = np.zeros(total, dtype=bool)
+            for name, cs in seq._schedule.items():
+                if cs.channel_obj.basis == basis:
+                    for s in cs.slots:
+                        if isinstance(s.type, Pulse) and q in s.targets:
+                            covered[s.ti:s.tf] = True
+            # compared where some pulse targets the atom (output-modulation tails and EOM idle padding are not "pulses")
+            ga, gd = np.asarray(arrs["amp"], dtype=float), np.asarray(arrs["det"], dtype=float)
+            det_cmp = covered.copy()
+            for name, cs in seq._schedule.items():
+                if cs.channel_obj.basis == basis and cs.eom_blocks and cs.eom_blocks[-1].tf is None:
+                    det_cmp[cs.get_duration():] = False     # idle off-detuning padding of a channel still in EOM mode (inside a fall-time tail)
+            if not np.allclose(ga[covered], e_amp[covered], atol=1e-9):
+                out.append((f"atom {q}/{basis}: amplitude is not the sum of the pulses that target it", {}))
+            if not np.allclose(gd[det_cmp], e_det[det_cmp], atol=1e-9):
+                out.append((f"atom {q}/{basis}: detuning is not the (weighted) sum of the pulses that target it", {}))
+            if np.any(np.abs(ga[~covered]) > 1e-9):
+                out.append((f"atom {q}/{basis}: amplitude attributed at a time when no pulse targets it", {}))
     return out
